@@ -72,6 +72,9 @@ def create_lattice_elements(cell_centers: list, **kwargs) -> tuple:
                 for v in range(0, len(new_edge_vertices) - 1):
                     v0 = new_edge_vertices[v]
                     v1 = new_edge_vertices[v + 1]
+                    if v0 == v1:
+                        # ridge shorter than the rounding resolution: both corners are the same vertex
+                        continue
 
                     vertex_number_1 = get_vertex_number(v0, new_vertices)
 
